@@ -357,10 +357,10 @@ impl Report {
                 local.distinct.insert(digest(section, case));
             }
             if local.nt_samples.len() < 2 {
-                local.nt_samples.push(serde_json::to_value(case).unwrap_or(Value::Null));
+                local.nt_samples.push(sample_value(case));
             }
         } else if local.samples.len() < 1 {
-            local.samples.push(serde_json::to_value(case).unwrap_or(Value::Null));
+            local.samples.push(sample_value(case));
         }
     }
 
@@ -734,6 +734,21 @@ impl Report {
         } else {
             0
         }
+    }
+}
+
+/// a case as it is printed in the evidence file; very large cases are abbreviated
+fn sample_value<C: Serialize>(case: &C) -> Value {
+    match serde_json::to_string(case) {
+        Ok(s) if s.len() <= 6000 => serde_json::from_str(&s).unwrap_or(Value::Null),
+        Ok(s) => {
+            let mut cut = 1500;
+            while !s.is_char_boundary(cut) {
+                cut -= 1;
+            }
+            json!({"abbreviated": true, "json_bytes": s.len(), "head": &s[..cut]})
+        }
+        Err(_) => Value::Null,
     }
 }
 
